@@ -85,7 +85,7 @@ def main(tier):
     gen = os.path.join(scr, "Gen_Statics.v")
     stats = statics.emit_coq(res, gen, known_ids=known_ids)
     rc, cout = sh(["timeout", "300", "coqc", "-Q", COQ, "A1", gen], cwd=scr, timeout=400)
-    gen_ok = (rc == 0 and cout.count("Closed under the global context") == 1)
+    gen_ok = (rc == 0 and cout.count("Closed under the global context") == 2 and "Axioms:" not in cout)
     nobl, ndone = nthm + 1, ndis + (1 if gen_ok else 0)
 
     # coverage bookkeeping: one case per writable-section object examined
